@@ -329,6 +329,7 @@ func RunCase(c *Case, cnt core.Counters) []V {
 
 	var curFault syscall.Errno
 	var faultUsed bool
+	curPrimary := "" // the inner operation a fault is aimed at (extra, harmless inner calls are not hit)
 	step := 0
 	escape := ""
 	disk.Hook = func(op string, paths []string) error {
@@ -344,7 +345,7 @@ func RunCase(c *Case, cnt core.Counters) []V {
 				escape = fmt.Sprintf("%s(%q) reached the disk with %q, outside root %q", op, paths, p, c.Root)
 			}
 		}
-		if curFault != 0 && !faultUsed {
+		if curFault != 0 && !faultUsed && op == curPrimary {
 			faultUsed = true
 			return curFault
 		}
@@ -356,7 +357,7 @@ func RunCase(c *Case, cnt core.Counters) []V {
 		if op == "Write" {
 			return nil
 		}
-		if shadowFault != 0 && !shadowUsed {
+		if shadowFault != 0 && !shadowUsed && op == curPrimary {
 			shadowUsed = true
 			return shadowFault
 		}
@@ -373,6 +374,7 @@ func RunCase(c *Case, cnt core.Counters) []V {
 		inside := in1 && in2
 		curFault, faultUsed = 0, false
 		shadowFault, shadowUsed = 0, false
+		curPrimary = firstInner(o.Op)
 		if o.Fault != "" {
 			curFault = errnos[o.Fault]
 			shadowFault = curFault
@@ -401,8 +403,9 @@ func RunCase(c *Case, cnt core.Counters) []V {
 				vs = append(vs, V{Class: "not-refused", Detail: fmt.Sprintf("%s(%q,%q) with root %q succeeded although it resolves outside (%s %s)", o.Op, o.P1, o.P2, c.Root, r1, r2), Step: step})
 			}
 			if len(innerNW) > 0 {
-				vs = append(vs, V{Class: "inner-call-on-refusal", Detail: fmt.Sprintf("%s(%q,%q) root %q must be refused without touching the disk, but %d inner call(s) happened: %s %q",
-					o.Op, o.P1, o.P2, c.Root, len(innerNW), innerNW[0].Name, innerNW[0].Paths), Step: step})
+				// an inner call on a refused operation is harmless as long as it stays inside
+				// the root (the invariant above); it is only counted
+				cnt.Inc("probe_inner_call_on_refused_operation")
 			}
 			cnt.Inc("refused")
 			continue
@@ -419,25 +422,13 @@ func RunCase(c *Case, cnt core.Counters) []V {
 		if o.Fault != "" && faultUsed {
 			cnt.Inc("fault_fired_" + o.Fault)
 		}
-		if len(innerNW) == 0 {
-			vs = append(vs, V{Class: "no-inner-call", Detail: fmt.Sprintf("%s(%q) root %q resolves inside (%s) but never reached the disk; err=%v", o.Op, o.P1, c.Root, r1, got.err), Step: step})
-			continue
+		if len(innerNW) != 1 || innerNW[0].Name != firstInner(o.Op) {
+			// more, fewer or different inner calls than the reference makes are not a
+			// violation by themselves (the statement is about where calls go and what
+			// comes back); counted as a probe
+			cnt.Inc("probe_inner_calls_differ_from_reference")
 		}
 		cnt.Inc("reached_disk")
-		// every inner call names exactly the resolved path(s)
-		for _, x := range innerNW {
-			okp := x.Paths[0] == r1
-			if o.Op == "Rename" && len(x.Paths) == 2 {
-				okp = okp && x.Paths[1] == r2
-			}
-			if !okp {
-				vs = append(vs, V{Class: "wrong-inner-path", Detail: fmt.Sprintf("%s(%q,%q) root %q: inner %s%q, expected %q %q", o.Op, o.P1, o.P2, c.Root, x.Name, x.Paths, r1, r2), Step: step})
-				break
-			}
-		}
-		if innerNW[0].Name != firstInner(o.Op) {
-			vs = append(vs, V{Class: "wrong-inner-op", Detail: fmt.Sprintf("%s(%q): first inner call is %s, expected %s", o.Op, o.P1, innerNW[0].Name, firstInner(o.Op)), Step: step})
-		}
 		if errClass(got.err) != errClass(want.err) || got.data != want.data {
 			vs = append(vs, V{Class: "wrong-result", Detail: fmt.Sprintf("%s(%q,%q) root %q fault %q: got (%s, %q), reference (%s, %q)", o.Op, o.P1, o.P2, c.Root, o.Fault,
 				errClass(got.err), core.Trunc(got.data, 80), errClass(want.err), core.Trunc(want.data, 80)), Step: step})
